@@ -21,31 +21,38 @@ N = 3
 
 
 def make_world():
-    """Fresh objects. Returns dict with cubes, funcs (by cube kind), args (caller-owned arrays), dims."""
+    """Fresh objects. Returns dict with cubes, funcs (by cube kind), args (caller-owned arrays), dims.
+
+    Every aggregate class appears in two parameterisations chosen so that a missing copy shows up in the caller's
+    buffers: (A) fact = (values, validity) with REAL numbers hidden under False validity + NaN-marked weights that are
+    missing on a row whose fact is present; (B) NaN-marked fact + (values, validity) weights hiding 1e300."""
     from catii import ffuncs as F
     from catii import xfuncs as X
     from catii.ccubes import ccube
     from catii.xcubes import xcube
 
+    nan = float("nan")
     args = {
-        "fact1": harness.fact1_missing(N),
-        "fact1b": harness.FACT1(N).copy(),
-        "fact2_vals": harness.fact2_pair(N)[0],
-        "fact2_ok": harness.fact2_pair(N)[1],
-        "ifact_vals": numpy.array([3, -999, 5], dtype=numpy.int64),
-        "ifact_ok": numpy.array([True, False, True]),
-        "w": harness.weights(N),
-        "wm": harness.weights_missing(N),
-        "w_vals": numpy.array([1.0, 1e300, 2.0]),
-        "w_ok": numpy.array([True, False, True]),
+        "fA_vals": numpy.array([1.0, 2.0, 4.0]), "fA_ok": numpy.array([True, False, True]),
+        "fB": numpy.array([1.0, nan, 4.0]),
+        "fC": numpy.array([7.0, 2.0, 4.0]),
+        "f2A_vals": numpy.array([[1.0, 7.0], [2.0, 1.0], [4.0, 11.0]]), "f2A_ok": numpy.array([[True, False], [True, True], [False, True]]),
+        "f2B": numpy.array([[1.0, nan], [2.0, 1.0], [nan, 11.0]]),
+        "f2C": numpy.array([[1.0, 7.0], [2.0, 1.0], [4.0, 11.0]]),
+        "iF_vals": numpy.array([3, -999, 5], dtype=numpy.int64), "iF_ok": numpy.array([True, False, True]),
+        "wA": numpy.array([0.5, 1.0, nan]),
+        "wB_vals": numpy.array([1.0, 1e300, 2.0]), "wB_ok": numpy.array([True, False, True]),
+        "wC": numpy.array([0.5, 1.0, 2.0]),
         "dA0": numpy.array([[0, 1], [1, 1], [0, 0]], dtype=numpy.int64),
         "dA1": numpy.array([0, 1, 1], dtype=numpy.int64),
         "dB0": numpy.array([1, 0, 1], dtype=numpy.int64),
         "dB1": numpy.array([0, 0, 1], dtype=numpy.int64),
     }
-    fact2 = (args["fact2_vals"], args["fact2_ok"])
-    ifact = (args["ifact_vals"], args["ifact_ok"])
-    wpair = (args["w_vals"], args["w_ok"])
+    pristine = {"arg:" + k: (a.dtype.str, a.shape, a.tobytes()) for k, a in args.items()}
+    fA = (args["fA_vals"], args["fA_ok"])
+    f2A = (args["f2A_vals"], args["f2A_ok"])
+    iF = (args["iF_vals"], args["iF_ok"])
+    wB = (args["wB_vals"], args["wB_ok"])
     idx = {
         "iA0": M.build_index(args["dA0"], 1),
         "iA1": M.build_index(args["dA1"], 0),
@@ -62,30 +69,46 @@ def make_world():
     }
     ff = {
         "count": F.ffunc_count(),
-        "count_w": F.ffunc_count(args["wm"], ignore_missing=True),
-        "count_wp": F.ffunc_count(wpair, return_missing_as=(0, False)),
-        "valid_count": F.ffunc_valid_count(args["fact1"]),
-        "sum": F.ffunc_sum(ifact, return_missing_as=0),
-        "sum_w": F.ffunc_sum(args["fact1b"], args["w"]),
-        "mean2": F.ffunc_mean(fact2, None, True, (0, False)),
-        "mean_w": F.ffunc_mean(args["fact1"], args["wm"]),
+        "count_wA": F.ffunc_count(args["wA"], ignore_missing=True),
+        "count_wB": F.ffunc_count(wB, return_missing_as=(0, False)),
+        "valid_count_A": F.ffunc_valid_count(fA, args["wA"]),
+        "valid_count_B": F.ffunc_valid_count(args["fB"], wB, True),
+        "sum_A": F.ffunc_sum(fA, args["wA"], True),
+        "sum_B": F.ffunc_sum(args["fB"], wB),
+        "sum_i": F.ffunc_sum(iF, return_missing_as=0),
+        "sum_C": F.ffunc_sum(args["fC"], args["wC"]),
+        "mean_A": F.ffunc_mean(f2A, args["wA"], True, (0, False)),
+        "mean_B": F.ffunc_mean(args["f2B"], wB),
+        "mean_u": F.ffunc_mean(fA),
     }
     xf = {
         "count": X.xfunc_count(),
-        "count_w": X.xfunc_count(args["wm"], ignore_missing=True),
-        "valid_count": X.xfunc_valid_count(args["fact1"]),
-        "sum": X.xfunc_sum(ifact, return_missing_as=0),
-        "sum_w": X.xfunc_sum(args["fact1b"], args["w"]),
-        "mean2": X.xfunc_mean(fact2, wpair, True, (0, False)),
-        "stddev": X.xfunc_stddev(fact2, args["w"]),
-        "quantile": X.xfunc_quantile(args["fact1"], 0.5, None, True),
-        "quantile_w": X.xfunc_quantile(args["fact1b"], 0.25, args["w"]),
-        "max": X.xfunc_max(ifact, True, (0, False)),
-        "min": X.xfunc_min(args["fact1"]),
-        "corrcoef": X.xfunc_corrcoef(fact2, None, True),
-        "covariance": X.xfunc_covariance(fact2, wpair),
+        "count_wA": X.xfunc_count(args["wA"], ignore_missing=True),
+        "count_wB": X.xfunc_count(wB, return_missing_as=(0, False)),
+        "valid_count_A": X.xfunc_valid_count(fA, args["wA"]),
+        "valid_count_B": X.xfunc_valid_count(args["f2B"], wB, True),
+        "sum_A": X.xfunc_sum(f2A, args["wA"], True),
+        "sum_B": X.xfunc_sum(args["fB"], wB),
+        "sum_i": X.xfunc_sum(iF, return_missing_as=0),
+        "mean_A": X.xfunc_mean(fA, args["wA"], True, (0, False)),
+        "mean_B": X.xfunc_mean(args["f2B"], wB),
+        "stddev_A": X.xfunc_stddev(fA, args["wA"], True),
+        "stddev_B": X.xfunc_stddev(args["f2B"], wB),
+        "stddev_C": X.xfunc_stddev(args["f2C"], args["wC"]),
+        "quantile_A": X.xfunc_quantile(fA, 0.5, args["wA"], True),
+        "quantile_B": X.xfunc_quantile(args["fB"], 0.25, wB),
+        "quantile_2": X.xfunc_quantile(f2A, 0.75, None, True),
+        "quantile_C": X.xfunc_quantile(args["fC"], 0.25, args["wC"]),
+        "max_A": X.xfunc_max(fA, True, (0, False)),
+        "max_i": X.xfunc_max(iF, True, (0, False)),
+        "min_B": X.xfunc_min(args["fB"]),
+        "corrcoef_A": X.xfunc_corrcoef(f2A, None, True),
+        "corrcoef_B": X.xfunc_corrcoef(args["f2B"]),
+        "covariance_A": X.xfunc_covariance(f2A, args["wA"], True),
+        "covariance_B": X.xfunc_covariance(args["f2B"], wB),
+        "covariance_C": X.xfunc_covariance(args["f2C"], args["wC"]),
     }
-    return {"args": args, "idx": idx, "cubes": cubes, "ff": ff, "xf": xf, "dims_lists": dims_lists, "tuples": {"fact2": fact2, "ifact": ifact, "wpair": wpair}}
+    return {"args": args, "idx": idx, "cubes": cubes, "ff": ff, "xf": xf, "dims_lists": dims_lists, "tuples": {"fA": fA, "f2A": f2A, "iF": iF, "wB": wB}, "pristine": pristine}
 
 
 def shortcut_call(world, cube_name, spec):
@@ -96,21 +119,21 @@ def shortcut_call(world, cube_name, spec):
     if name == "count":
         return cube.count()
     if name == "count_w":
-        return cube.count(a["wm"], None, True)
+        return cube.count(a["wA"], None, True)
     if name == "valid_count":
-        return cube.valid_count(a["fact1"], a["w"])
+        return cube.valid_count(t["fA"], t["wB"])
     if name == "sum":
-        return cube.sum(t["ifact"], None, False, 0)
+        return cube.sum(t["iF"], None, False, 0)
     if name == "mean":
-        return cube.mean(t["fact2"], t["wpair"], True, (0, False))
+        return cube.mean(t["f2A"], a["wA"], True, (0, False))
     if name == "stddev":
-        return cube.stddev(t["fact2"], a["w"])
+        return cube.stddev(t["f2A"], a["wA"], True)
     if name == "quantile":
-        return cube.quantile(a["fact1"], 0.5, a["w"], True)
+        return cube.quantile(t["fA"], 0.5, a["wA"], True)
     if name == "max":
-        return cube.max(t["ifact"], True, (0, False))
+        return cube.max(t["iF"], True, (0, False))
     if name == "covariance":
-        return cube.covariance(t["fact2"], t["wpair"])
+        return cube.covariance(t["f2A"], t["wB"], True)
     raise KeyError(name)
 
 
@@ -243,6 +266,10 @@ def run_history(hist, check_all=True):
     viol = []
     h0 = state_hash(w)
     snap0 = args_snapshot(w)
+    # constructing cubes and aggregate-function objects must already have left the caller's arrays alone
+    bad0 = sorted(k for k, v in w["pristine"].items() if snap0[k] != v)
+    if bad0:
+        viol.append(("argument-modified-by-constructor", -1, "building the cubes / aggregate-function objects changed caller-owned %r" % (bad0,)))
     changed = []
     hcur = h0
     for i, ev in enumerate(hist):
